@@ -86,6 +86,31 @@ def canon_labels(labels):
     return tuple(out), s
 
 
+def full_canon(labels):
+    """normal form used to compare two label representations of the same value: canon_labels, then every
+    remaining conjugate pair (x+ ... x-) is brought adjacent (one sign per label crossed) and annihilated (+1)"""
+    out, s = canon_labels(labels)
+    out = list(out)
+    changed = True
+    while changed:
+        changed = False
+        for i, (la, da) in enumerate(out):
+            if not da:
+                continue
+            for j in range(i + 1, len(out)):
+                lb, db = out[j]
+                if lb == la and not db:
+                    if (j - i - 1) % 2:
+                        s = -s
+                    del out[j]
+                    del out[i]
+                    changed = True
+                    break
+            if changed:
+                break
+    return tuple(out), s
+
+
 def _sel(ms, pat):
     return [ms[k][p] for k, p in enumerate(pat)]
 
